@@ -112,6 +112,7 @@ pub fn run(id: &str, tier: Tier) -> i32 {
         "C15" => crate::c15::run(tier),
         "C07" => crate::c07::run(tier),
         "C10" => crate::c10::run(tier),
+        "C04" => crate::c04::run(tier),
         "C08" => crate::c08::run(tier),
         "C09" => crate::c09::run(tier),
         "C14" => crate::c14::run(tier),
